@@ -96,6 +96,89 @@ pub fn generate(r: &mut Runner) {
         }
         r.run(c, true);
     }
+    // sessions: a heavy session (large swings, volumes ×10^3..10^6) of at least period+1 inputs, reset(), a quiet
+    // two-sided session of at least period+1 inputs — sometimes followed by a second reset and another heavy session.
+    // Whatever reset() leaves behind (ring slots, running totals, counters) is large against the quiet session.
+    let nsess = if r.tier == Tier::Quick { 150 } else { 3000 };
+    for i in 0..nsess {
+        let ind = INDS[i % INDS.len()];
+        let np = crate::ind::arity(ind).unwrap().0;
+        let p0 = match (i / INDS.len()) % 6 { 0 => 1, 1 => 2, 2 => 3, 3 => r.rng.range(4, 8), 4 => r.rng.range(9, 20), _ => r.rng.range(21, 64) };
+        let ps: Vec<usize> = (0..np).map(|j| if j == 0 { p0 } else { r.rng.range(1, 6) }).collect();
+        let bars = !crate::ind::has_next_name(ind) || (matches!(ind, "FastStochastic" | "SlowStochastic") && r.rng.chance(0.5));
+        let mut c = Case::new("C07", "sessions", ind, &ps, &[]);
+        let heavy_vol = *r.rng.pick(&[1e3, 1e4, 1e5, 1e6]);
+        let nsessions = if r.rng.chance(0.3) { 3 } else { 2 };
+        for sidx in 0..nsessions {
+            let heavy = sidx % 2 == 0;
+            let len = p0 + 1 + r.rng.below(2 * p0 + 8);
+            let level = if heavy { 100.0 } else { *r.rng.pick(&[40.0, 50.0, 97.0]) };
+            let mut x = level;
+            let mut prev = x;
+            for _ in 0..len {
+                // heavy: swings of up to 20% with an upward bias (a rally); quiet: two-sided moves of up to 0.2%
+                let step = if heavy { (r.rng.unit() - 0.3) * 0.2 } else { (r.rng.unit() - 0.5) * 0.004 };
+                x = (x * (1.0 + step)).max(level * 0.05);
+                if bars {
+                    let (top, bot) = (x.max(prev), x.min(prev));
+                    let v = (0.5 + r.rng.unit()) * if heavy { 250.0 * heavy_vol } else { 900.0 };
+                    c.ops.push(Op::Bar(crate::ind::B { o: prev, h: top * (1.0 + r.rng.unit() * 0.002), l: bot * (1.0 - r.rng.unit() * 0.002), c: x, v }));
+                } else {
+                    c.ops.push(Op::Next(x));
+                }
+                prev = x;
+            }
+            if sidx + 1 < nsessions {
+                c.ops.push(Op::Reset);
+            }
+        }
+        r.run(c, true);
+    }
+    // spike, then a tiny-range monotone run: an outlier move S (once there-and-back, once a level shift) followed by
+    // 3n+12.. strictly monotone inputs whose tick is S/f, f in {1e6,…,1e10}: the true ratio sits AT the bound (ER = 1,
+    // stochastics 0/100) while anything still carrying rounding residue of S is off by S·2^-52 / (n·tick)
+    let nspike = if r.tier == Tier::Quick { 200 } else { 4000 };
+    for i in 0..nspike {
+        let ind = INDS[i % INDS.len()];
+        let np = crate::ind::arity(ind).unwrap().0;
+        let p0 = *r.rng.pick(&[1usize, 2, 3, 5, 8, 14, 20, 50]);
+        let ps: Vec<usize> = (0..np).map(|j| if j == 0 { p0 } else { r.rng.range(1, 6) }).collect();
+        let bars = !crate::ind::has_next_name(ind) || (matches!(ind, "FastStochastic" | "SlowStochastic") && r.rng.chance(0.5));
+        let level = *r.rng.pick(&[1.0, 100.0, 1e4]);
+        let s = level * *r.rng.pick(&[0.5, 10.0, 1000.0]);
+        let f = *r.rng.pick(&[1e6, 1e7, 1e8, 1e9, 1e10]);
+        let tick = s / f;
+        let back = r.rng.chance(0.5);
+        let up = r.rng.chance(0.5);
+        let mut c = Case::new("C07", "spike-then-monotone", ind, &ps, &[]);
+        c.extra = vec![s, f];
+        let mut xs: Vec<f64> = vec![];
+        let mut x = level;
+        for _ in 0..r.rng.below(2 * p0 + 2) {
+            x = (x * (1.0 + (r.rng.unit() - 0.5) * 0.02)).max(level * 0.5);
+            xs.push(x);
+        }
+        for _ in 0..r.rng.range(1, 3) {
+            xs.push(x + s);
+        }
+        let mut x = if back { x } else { x + s };
+        for k in 0..(3 * p0 + 12 + r.rng.below(40)) {
+            let d = tick * (1.0 + (k % 3) as f64);
+            x = if up { x + d } else { (x - d).max(level * 0.25) };
+            xs.push(x);
+        }
+        let mut prev = xs[0];
+        for (k, &x) in xs.iter().enumerate() {
+            if bars {
+                let (top, bot) = (x.max(prev), x.min(prev));
+                c.ops.push(Op::Bar(crate::ind::B { o: prev, h: top + tick * r.rng.unit(), l: (bot - tick * r.rng.unit()).max(level * 0.2), c: x, v: 10.0 + (k % 7) as f64 }));
+            } else {
+                c.ops.push(Op::Next(x));
+            }
+            prev = x;
+        }
+        r.run(c, true);
+    }
 }
 
-pub const RULE: &str = "RSI, FastStochastic (scalars and valid bars), SlowStochastic, MoneyFlowIndex, EfficiencyRatio on positive price streams / valid bars in 9 regimes (trending, oscillating, gapping, flat, spikes, widely varying volume incl. 0), periods incl. 1 up to 256, plus 800-step strictly monotone runs with one-tick (1e-9) and coarse ranges; every step whose reference denominator (recomputed from scratch in double-double) is non-zero must lie in [0,100] ([0,1] for ER) with 1e-9 slack; MFI slack 100·tau(t)·c, judged when c <= 1000. Non-trivial = longer than period+1.";
+pub const RULE: &str = "RSI, FastStochastic (scalars and valid bars), SlowStochastic, MoneyFlowIndex, EfficiencyRatio on positive price streams / valid bars in 9 regimes (trending, oscillating, gapping, flat, spikes, widely varying volume incl. 0), periods incl. 1 up to 256, a quarter of the cases with a reset() at a random position; plus 800-step strictly monotone runs with one-tick (1e-9) and coarse ranges; plus sessions (150 quick / 3000 thorough cases): a heavy session (swings to 20%, volumes 250*{1e3..1e6}) of period+1..3*period+8 inputs, reset(), a quiet two-sided session (moves to 0.2%, volume ~900) of the same length range, in 30% of the cases a second reset() and another heavy session, periods 1, 2, 3, 4..8, 9..20, 21..64 - so that anything reset() leaves behind is large against what follows; plus spike-then-tiny-monotone (200 / 4000 cases): 0..2n+1 warm-up inputs, 1..3 inputs displaced by S = level*{0.5, 10, 1000} (there-and-back or a level shift), then 3n+12..3n+51 strictly monotone inputs (up or down) with tick S/f, f in {1e6, 1e7, 1e8, 1e9, 1e10}, levels {1, 100, 1e4}, periods {1,2,3,5,8,14,20,50}, scalars or valid bars of one-tick range - the true ratio sits at the bound (ER = 1, stochastics 0 or 100) and residue of S in any running sum is S*2^-52/(n*tick) of it; every step whose reference denominator (recomputed from scratch in double-double, restarted at reset) is non-zero must lie in [0,100] ([0,1] for ER) with 1e-9 slack; MFI slack 100*tau(t)*c, judged when c <= 1000. Non-trivial = longer than period+1.";
